@@ -136,12 +136,18 @@ var mysqlTypeAliases = map[string][]string{
 	"float":         {"FLOAT"},
 	"json":          {"JSON"},
 	"enum('a','b')": {"ENUM('a','b')", "enum('a', 'b')"},
+	// unsigned integers: with and without the display width the parser fills in (seeded change C03-l)
+	"int(11) UNSIGNED":      {"INT UNSIGNED", "int(11) unsigned", "INTEGER UNSIGNED", "int unsigned"},
+	"smallint(6) UNSIGNED":  {"SMALLINT UNSIGNED", "smallint(6) unsigned"},
+	"tinyint(4) UNSIGNED":   {"TINYINT UNSIGNED", "tinyint(4) unsigned"},
+	"bigint(20) UNSIGNED":   {"BIGINT UNSIGNED", "bigint(20) unsigned"},
 	// labels are string literals: their case belongs to the schema, not to the keyword-case option
 	"enum('Open','InProgress')": {"ENUM('Open','InProgress')", "enum('Open', 'InProgress')"},
 }
 
 var mysqlTypes = []string{"int(11)", "bigint(20)", "tinyint(4)", "tinyint(1)", "smallint(6)", "varchar(64)", "varchar(255)",
-	"char(3)", "text", "longtext", "datetime", "timestamp", "date", "decimal(10,2)", "decimal(12,4)", "decimal(5,3)", "double", "float", "json", "enum('a','b')", "enum('Open','InProgress')"}
+	"char(3)", "text", "longtext", "datetime", "timestamp", "date", "decimal(10,2)", "decimal(12,4)", "decimal(5,3)", "double", "float", "json", "enum('a','b')", "enum('Open','InProgress')",
+	"int(11) UNSIGNED", "smallint(6) UNSIGNED", "tinyint(4) UNSIGNED", "bigint(20) UNSIGNED"}
 
 var pgTypeAliases = map[string][]string{
 	"INT8":          {"BIGINT", "INT8", "INT", "INTEGER"},
